@@ -220,6 +220,14 @@ fn gen_entry(rng: &mut Rng, subject: K, h: &mut HandleCounts, faults: bool, chea
                     t = 100 + rng.below(200);
                 }
                 let mut s = options(rng, &[LocNonSeq, LocMinTransfer]);
+                if faults && rng.chance(1, 10) {
+                    // a list index just past (or well past) its list: the builder must refuse it
+                    if rng.chance(1, 2) {
+                        s.push(Op::new(LocSetInit).a(&[oor_list_index(rng, i), rng.val(32), 1]));
+                    } else {
+                        s.push(Op::new(LocSetTarget).a(&[oor_list_index(rng, t), rng.val(32), 1]));
+                    }
+                }
                 for _ in 0..small_count(rng, 12) {
                     match rng.below(4) {
                         0 => s.push(Op::new(LocSetInit).a(&[rng.below(i.max(1)), rng.val(32)])),
@@ -278,7 +286,7 @@ fn gen_entry(rng: &mut Rng, subject: K, h: &mut HandleCounts, faults: bool, chea
                     1 => rng.below(40),
                     _ => rng.below(301),
                 };
-                Op::new(RhIsa).a(&[len, rng.below(3)])
+                Op::new(RhIsa).a(&[len, rng.below(4)])
             }
             1 => Op::new(RhMmu).a(&[rng.below(3)]),
             2 => {
@@ -288,7 +296,7 @@ fn gen_entry(rng: &mut Rng, subject: K, h: &mut HandleCounts, faults: bool, chea
             _ => {
                 if h.isa == 0 {
                     h.isa += 1;
-                    Op::new(RhIsa).a(&[rng.below(60), rng.below(3)])
+                    Op::new(RhIsa).a(&[rng.below(60), rng.below(4)])
                 } else {
                     let mut s = Vec::new();
                     if h.cmo > 0 {
@@ -427,6 +435,9 @@ fn gen_entry(rng: &mut Rng, subject: K, h: &mut HandleCounts, faults: bool, chea
 /// byte string for slice operations: long ones are dense (0xff-heavy or random) so that wide
 /// accumulators are driven towards their carries
 fn dense(rng: &mut Rng, n: usize) -> Vec<u8> {
+    if n > (1 << 24) {
+        return vec![0xff; n];
+    }
     if n >= 200 {
         match rng.below(3) {
             0 => vec![0xff; n],
@@ -497,6 +508,17 @@ fn oor_index(rng: &mut Rng, n: u64) -> u64 {
         _ => x | 1 << 40,
     }
     .max(n)
+}
+
+/// out-of-range index for a *list* (a lenient implementation might grow the list up to the index,
+/// so these stay below 2^17 to keep such a change from exhausting memory instead of being reported)
+fn oor_list_index(rng: &mut Rng, n: u64) -> u64 {
+    loop {
+        let v = oor_index(rng, n);
+        if v < (1 << 17) {
+            return v;
+        }
+    }
 }
 
 fn refidx(rng: &mut Rng, n: u64) -> u64 {
@@ -674,8 +696,8 @@ pub fn gen_trace(rng: &mut Rng, cfg: &GenCfg, run: u64) -> Op {
                 let o = match rng.below(8) {
                     0 => Op::new(LocNonSeq),
                     1 => Op::new(LocMinTransfer),
-                    2 if i > 0 || oor => Op::new(LocSetInit).a(&[if oor { oor_index(rng, i) } else { rng.below(i) }, rng.val(32)]),
-                    3 if t > 0 || oor => Op::new(LocSetTarget).a(&[if oor { oor_index(rng, t) } else { rng.below(t) }, rng.val(32)]),
+                    2 if i > 0 || oor => Op::new(LocSetInit).a(&[if oor { oor_list_index(rng, i) } else { rng.below(i) }, rng.val(32)]),
+                    3 if t > 0 || oor => Op::new(LocSetTarget).a(&[if oor { oor_list_index(rng, t) } else { rng.below(t) }, rng.val(32)]),
                     _ => {
                         if (i == 0 || t == 0) && !oor {
                             continue;
@@ -810,6 +832,7 @@ pub fn gen_trace(rng: &mut Rng, cfg: &GenCfg, run: u64) -> Op {
                 _ => 100 + rng.below(400),
             };
             let mut cur = len.max(36);
+            let n_ops_small = n <= 12;
             for _ in 0..n {
                 let w_of = |k: K| match k {
                     SdWrite8 => 1u64,
@@ -852,7 +875,8 @@ pub fn gen_trace(rng: &mut Rng, cfg: &GenCfg, run: u64) -> Op {
                     }
                     4 => {
                         // rarely a large, dense slice (KiB of high-valued bytes)
-                        let n = if rng.chance(1, 60) { 1_000 + rng.below(7_000) as usize } else { small_count(rng, 40) as usize };
+                        // and very rarely ~17-20 MiB of 0xff: the table's byte total passes 2^32
+                        let n = if n_ops_small && rng.chance(1, 2500) { (17 << 20) + rng.below(3 << 20) as usize } else if rng.chance(1, 60) { 1_000 + rng.below(7_000) as usize } else { small_count(rng, 40) as usize };
                         cur += n as u64;
                         Op::new(SdAppendSlice).b(&dense(rng, n))
                     }
@@ -889,6 +913,10 @@ pub fn gen_trace(rng: &mut Rng, cfg: &GenCfg, run: u64) -> Op {
             let mode = rng.below(3);
             for _ in 0..n {
                 let blen = |rng: &mut Rng| -> usize {
+                    // very rarely tens of MiB in one call (wide accumulators folded only at the end)
+                    if n < 40 && rng.chance(1, 4000) {
+                        return (34 << 20) + rng.below(14 << 20) as usize;
+                    }
                     match rng.below(12) {
                         0 => 0,
                         1 => 1,
@@ -905,11 +933,11 @@ pub fn gen_trace(rng: &mut Rng, cfg: &GenCfg, run: u64) -> Op {
                     1 => Op::new(CkSub).a(&[rng.below(256)]),
                     2 => {
                         let l = blen(rng);
-                        Op::new(CkAppend).b(&rng.bytes(l))
+                        Op::new(CkAppend).b(&if l > (1 << 24) { vec![0xff; l] } else { rng.bytes(l) })
                     }
                     3 => {
                         let l = blen(rng);
-                        Op::new(CkDelete).b(&rng.bytes(l))
+                        Op::new(CkDelete).b(&if l > (1 << 24) { vec![0xff; l] } else { rng.bytes(l) })
                     }
                     4 | 5 => {
                         let l = blen(rng).min(300);
